@@ -93,6 +93,9 @@ impl SrcModel {
         v
     }
 
+    /// a row whose name starts with this prefix is a strict comparison (< for Le, > for Ge)
+    pub const STRICT_ROW: &'static str = "strict_";
+
     pub fn to_rooc(&self) -> Model {
         let mut domain: IndexMap<String, DomainVariable> = IndexMap::new();
         for (n, d) in &self.vars {
@@ -106,7 +109,17 @@ impl SrcModel {
         let cons = self
             .cons
             .iter()
-            .map(|c| if c.bare { Constraint::new_logic_assertion(c.lhs.clone(), c.name.clone()) } else { Constraint::new(c.lhs.clone(), crate::lm::rel_to_cmp(c.rel), c.rhs.clone(), c.name.clone()) })
+            .map(|c| if c.bare { Constraint::new_logic_assertion(c.lhs.clone(), c.name.clone()) } else { Constraint::new(
+                        c.lhs.clone(),
+                        match (c.name.starts_with(Self::STRICT_ROW), c.rel) {
+                            (true, Rel::Le) => Comparison::Less,
+                            (true, Rel::Ge) => Comparison::Greater,
+                            _ => crate::lm::rel_to_cmp(c.rel),
+                        },
+                        c.rhs.clone(),
+                        c.name.clone(),
+                    )
+                })
             .collect();
         let (ot, obj) = match self.sense {
             Sense::Min => (OptimizationType::Min, self.obj.clone()),
@@ -142,9 +155,10 @@ impl SrcModel {
                 }
             } else {
                 let (l, r) = (eval(&c.lhs, env)?, eval(&c.rhs, env)?);
+                let strict = c.name.starts_with(Self::STRICT_ROW);
                 let ok = match c.rel {
-                    Rel::Le => l <= r,
-                    Rel::Ge => l >= r,
+                    Rel::Le => if strict { l < r } else { l <= r },
+                    Rel::Ge => if strict { l > r } else { l >= r },
                     Rel::Eq => l == r,
                 };
                 if !ok {
